@@ -15,7 +15,7 @@
  *                                    returns OK (1) / FAIL (0) if it is called
  *     result: "<input> > <out>,<out>..." joined by " | "
  *
- * exe K <real|rfc> P <prng seed> M <cmid0> <smid0> A <async delay ms> E <default delay ms> N <server nstart>
+ * exe K <real|rfc> P <prng seed> M <cmid0> <smid0> T <tok0: first token is tok0+1; -1: empty token> A <async delay ms> E <default delay ms> N <server nstart>
  *     Q <sty>:<ok>:<think ms> ...   F <fate> ...
  *     discrete-event run of whole exchanges: the application sends the requests of Q one after
  *     the other (the next one <think> ms after the previous one concluded: handler call or NACK
@@ -272,6 +272,7 @@ static void client_setup(const coap_address_t *server, int maxr, int mid0, long 
   if (maxr >= 0) coap_session_set_max_retransmit(cs, (uint16_t)maxr);
   if (mid0 >= 0) cs->tx_mid = (uint16_t)mid0;
   if (tok0 >= 0) cs->tx_token = (uint64_t)tok0;
+  else if (tok0 == -1) cs->tx_token = UINT64_MAX;   /* the first token is 0: zero length on the wire */
   nreqs = 0;
   app_out = -1;
   vn_on_send = hook_send;
@@ -306,7 +307,7 @@ static size_t peer_bytes(uint8_t *b, const char *kind, int mid, unsigned long lo
   int type = 0, code = 0x45, with_tok = 1;
   if (!strcmp(kind, "ae")) { type = 2; code = 0; with_tok = 0; }
   else if (!strcmp(kind, "rs")) { type = 3; code = 0; with_tok = 0; }
-  else if (!strcmp(kind, "ar")) type = 2;
+  else if (!strcmp(kind, "ar") || !strcmp(kind, "ax")) type = 2;
   else if (!strcmp(kind, "cr")) type = 0;
   else if (!strcmp(kind, "nr")) type = 1;
   if (!with_tok) tl = 0;
@@ -316,6 +317,9 @@ static size_t peer_bytes(uint8_t *b, const char *kind, int mid, unsigned long lo
   b[n++] = (uint8_t)mid;
   memcpy(b + n, t, tl);
   n += tl;
+  if (!strcmp(kind, "ax")) b[n++] = 0x90;   /* experiment only (not generated, not modelled): a
+                                               piggybacked response with the unassigned critical
+                                               option 9 */
   if (code) { b[n++] = 0xff; b[n++] = 'r'; }
   return n;
 }
@@ -728,6 +732,7 @@ static void deliver(size_t idx) {
 
 static void do_exe(void) {
   int cmid0 = 100;
+  long long ctok0 = 0;
   uint64_t prng_seed = 12345;
   int nq = 0, qs[MAXREQ], qok[MAXREQ];
   coap_tick_t qthink[MAXREQ];
@@ -744,6 +749,7 @@ static void do_exe(void) {
     else if (!strcmp(a, "E") && i + 1 < vntok) { dflt_delay = (coap_tick_t)atoll(vtok[i + 1]); i += 2; }
     else if (!strcmp(a, "N") && i + 1 < vntok) { srv_nstart = atoi(vtok[i + 1]); i += 2; }
     else if (!strcmp(a, "H") && i + 1 < vntok) { app_method = atoi(vtok[i + 1]); i += 2; }
+    else if (!strcmp(a, "T") && i + 1 < vntok) { ctok0 = atoll(vtok[i + 1]); i += 2; }
     else if (!strcmp(a, "Q")) {
       i++;
       while (i < vntok && vtok[i][0] >= '0' && vtok[i][0] <= '9' && nq < MAXREQ) {
@@ -782,7 +788,7 @@ static void do_exe(void) {
     vn_addr4(&server, VN_LOOPBACK, 5683);
     coap_address_copy(&rfc_addr, &server);
   }
-  client_setup(&server, -1, cmid0, 0);
+  client_setup(&server, -1, cmid0, ctok0);
   coap_address_copy(&cli_addr, &cs->addr_info.local);
   use_tok_verdict = 1;
   sb_reset(&steps); sb_reset(&times); nsteps = 0;
